@@ -1,5 +1,20 @@
 # Per-property configuration of bin/check: Lean modules holding the property theorems, level, notes.
 PROPS = {
+    "C06": {
+        "lean": ["Knut.Properties.C06"],
+        "level": "proof",
+        "claim": "PARTIAL proof + repeated-run check. In the model every map iteration / arrival order is the order of a list; proved for all inputs: C06_sort_oracle_irrelevant and "
+                 "C06_sorted_fold_oracle_irrelevant (sorting with a total antisymmetric comparator removes the enumeration order: the dict.SortedKeys / compare.Sort sites), C06_sum_oracle_irrelevant "
+                 "and C06_comm_fold_oracle_irrelevant (commutative folds: Amounts.Add, SumBy, Totals, journal period), C06_report_cells_deterministic, C06_journal_deterministic (any two arrival "
+                 "orders of the directives give the same days, per-day contents up to order, and period). Not provable in this model: absence of further order leaks in the Go code, float "
+                 "summation order in portfolio/infer. Decided on every run: each of balance, print, check --write, transcode, portfolio weights, infer and import revolut2 is run 8 (thorough: 30) "
+                 "times on tie-rich inputs with different schedule-perturbation seeds and GOMAXPROCS 1/2/16 (Go randomises map iteration per run); stdout bytes and exit status must be identical.",
+        "note": "Trusted: Lean kernel; axioms propext, Classical.choice, Quot.sound. Go map order and goroutine schedules can be sampled, not enumerated. A genuine defect found by this check "
+                "(portfolio weights rows with equal weight in map order) was repaired in /repo (fix: commit 795b0e8).",
+        "rule": "inputs built for ties: sibling accounts with equal values, diamond-shaped price graphs with inconsistent cross rates, equally likely bayes candidates split over included training "
+                "files, several currencies per day in revolut2 statements, same-day directives; plus lifecycle journals with chained prices. class = (command, exit, output size).",
+        "assumptions": [],
+    },
     "C05": {
         "lean": ["Knut.Properties.C05"],
         "level": "proof",
